@@ -450,3 +450,20 @@ Print Assumptions C01_source_todict.
 Theorem C01_source_defaults : gen_defaults = expected_defaults.
 Proof. reflexivity. Qed.
 Print Assumptions C01_source_defaults.
+
+(* == / != against the object itself, another OrderedMultiDict (by its state), a plain mapping, or an object
+   that is neither (VJunk); sortedvalues *)
+From Boltons Require Import Proofs.C01_SrcEq6 Proofs.C01_SrcEq7.
+Theorem C01_source_eq : forall p x, PInv p -> eq_arg_ok x ->
+  src_call MEq [x] p = (match eq_model p x with Ok b => Ok (VBool b) | Raise e => Raise e end, p).
+Proof. exact (source_eq 1). Qed.
+Print Assumptions C01_source_eq.
+Theorem C01_source_ne : forall p x, PInv p -> eq_arg_ok x ->
+  src_call MNe [x] p = (match eq_model p x with Ok b => Ok (VBool (negb b)) | Raise e => Raise e end, p).
+Proof. exact (source_ne 0). Qed.
+Print Assumptions C01_source_ne.
+Theorem C01_source_sortedvalues : forall p f rv, Good p ->
+  src_call MSortedValues [VKeyFn f; VBool rv] p
+  = (match pm_sortedvalues p f rv with Ok r => Ok (VOtherObj r) | Raise e => Raise e end, p).
+Proof. exact (source_sortedvalues 1). Qed.
+Print Assumptions C01_source_sortedvalues.
